@@ -22,7 +22,7 @@ func (s *StreamSelectorPlanner) Process(ctx *shared.PlannerContext) (sql.ISelect
 		From(sql.NewRawObject(ctx.ProfilesSeriesGinTable)).
 		AndWhere(
 			sql.Ge(sql.NewRawObject("date"), sql.NewStringVal(clickhouse_planner.FormatFromDate(ctx.From))),
-			sql.Le(sql.NewRawObject("date"), sql.NewStringVal(clickhouse_planner.FormatFromDate(ctx.To)))).
+			sql.Le(sql.NewRawObject("date"), sql.NewStringVal(ctx.To.UTC().Format("2006-01-02")))).
 		GroupBy(sql.NewRawObject("fingerprint"))
 	if len(matchers.globalMatchers) > 0 {
 		res = res.AndWhere(sql.And(matchers.globalMatchers...))
